@@ -1,6 +1,8 @@
 package props
 
 import (
+	"bytes"
+	"compress/gzip"
 	"fmt"
 	"net/http"
 	"runtime"
@@ -32,6 +34,7 @@ func (cf *c19Config) mk(t *rt.Table) *restful.Container {
 	bo := rt.DefaultBuild(cf.Router)
 	bo.SelFilters = true
 	bo.Entity = cf.Entity
+	bo.ReadBody = true
 	// container filters are registered before Build's own recording filter would be: build by hand
 	c := restful.NewContainer()
 	if cf.Router == "jsr311" {
@@ -67,6 +70,18 @@ func (cf *c19Config) mk(t *rt.Table) *restful.Container {
 	for i := range t.Svcs {
 		c.Add(rt.NewService(&t.Svcs[i], nil, bo, i))
 	}
+	// an echo route: reads the (possibly gzip-encoded) entity and writes it back
+	echo := new(restful.WebService).Path("/echo19")
+	echo.Route(echo.POST("/").To(func(req *restful.Request, resp *restful.Response) {
+		var v map[string]interface{}
+		if err := req.ReadEntity(&v); err != nil {
+			resp.WriteErrorString(400, "read-error")
+			return
+		}
+		resp.WriteHeader(200)
+		fmt.Fprintf(resp, "echo:%v", v["id"])
+	}))
+	c.Add(echo)
 	// a plain handler behind the container filters (reachable through ServeHTTP)
 	c.HandleWithFilter("/hwf/", http.HandlerFunc(func(w http.ResponseWriter, r *http.Request) {
 		w.WriteHeader(200)
@@ -92,7 +107,7 @@ func c19Sig(o *rt.Outcome) string {
 	}
 	fmt.Fprintf(&b, "status=%d hdr[%s] body=%q", o.Status, headerSig(h), body)
 	for _, iv := range o.Obs.Invokes {
-		fmt.Fprintf(&b, " invoke(rid=%d params=%v sel=%d %s %s)", iv.RID, sortedParams(iv.Params), iv.SelRID, iv.SelMethod, iv.SelPath)
+		fmt.Fprintf(&b, " invoke(rid=%d params=%v sel=%d %s %s body=%q)", iv.RID, sortedParams(iv.Params), iv.SelRID, iv.SelMethod, iv.SelPath, iv.Body)
 	}
 	for _, se := range o.Obs.Sels {
 		fmt.Fprintf(&b, " filter(%s rid=%d attr=%s)", se.Where, se.RID, se.Attr)
@@ -102,7 +117,7 @@ func c19Sig(o *rt.Outcome) string {
 
 func c19(ctx *core.Ctx) {
 	quietLogs()
-	ctx.Rule("generated configurations (route table on the router's full template fragment, recording filters at all three levels labelled with their route/service, a filter writing a per-request attribute and a per-request key into PathParameters(), a HandleWithFilter handler, 0-5 extra container filters, CORS filter with configured or computed methods, OPTIONS filter, content encoding, handlers writing raw bytes or negotiated entities; both routers; Dispatch or ServeHTTP). For each request of a multiset of 40 (hits, near misses, adversarial, malformed Accept, CORS actual and preflight requests for different URLs, Accept-Encoding) the reference is the answer of a FRESH container to that request alone through the same entry point. Then (a) a 200-request sequential history in random order with repetitions, every 5th step preceded by the same request from a client whose connection fails on every body write, (b) batches released together from 16 goroutines, (c) the sequential history again with trace logging on: status, all headers, decoded body, path parameters, selected route and attributes seen by every filter/handler must equal the reference. Race detector on. Non-trivial = a compared response of a request that ran at least one filter or handler; distinct by (configuration shape, phase, outcome class).")
+	ctx.Rule("generated configurations (route table on the router's full template fragment, recording filters at all three levels labelled with their route/service, a filter writing a per-request attribute and a per-request key into PathParameters(), a HandleWithFilter handler, handlers that read the raw request body, an echo route reading gzip-encoded entities that arrive in small slices, 0-5 extra container filters, CORS filter with configured or computed methods, OPTIONS filter, content encoding, handlers writing raw bytes or negotiated entities; both routers; Dispatch or ServeHTTP). For each request of a multiset of 40 (hits, near misses, adversarial, malformed Accept, CORS actual and preflight requests for different URLs, Accept-Encoding) the reference is the answer of a FRESH container to that request alone through the same entry point. Then (a) a 200-request sequential history in random order with repetitions, every 5th step preceded by the same request from a client whose connection fails on every body write, (b) batches released together from 16 goroutines, (c) the sequential history again with trace logging on: status, all headers, decoded body, path parameters, selected route and attributes seen by every filter/handler must equal the reference. Race detector on. Non-trivial = a compared response of a request that ran at least one filter or handler; distinct by (configuration shape, phase, outcome class).")
 	ctx.Assume("the reference is per (request, entry point): ServeHTTP answers unregistered prefixes from net/http's mux")
 	defer restful.EnableTracing(false)
 	configs := ctx.N(50, 1500)
@@ -155,6 +170,28 @@ func c19(ctx *core.Ctx) {
 				req.Hdr["Origin"] = "http://evil.com"
 			case 4:
 				req.Method = "OPTIONS"
+			case 0:
+				if q == 8 || q == 24 {
+					// a form post whose handler reads the raw body itself
+					for si := range t.Svcs {
+						for ri := range t.Svcs[si].Routes {
+							rs := &t.Svcs[si].Routes[ri]
+							if len(rs.Consumes) == 0 && len(rs.Conds) == 0 && (rs.Method == "POST" || rs.Method == "PUT") {
+								req = rt.HitReq(r, &t.Svcs[si], rs)
+								req.HasCT, req.CT = true, "application/x-www-form-urlencoded"
+								req.Body = []byte(fmt.Sprintf("name=v%d&x=1", q))
+								req.BodyLen, req.BodyStr = len(req.Body), string(req.Body)
+							}
+						}
+					}
+				} else if q == 16 || q == 32 {
+					// a gzip-encoded JSON entity for the echo route, arriving slowly
+					var zb bytes.Buffer
+					zw := gzip.NewWriter(&zb)
+					fmt.Fprintf(zw, `{"id": %d, "pad": "%s"}`, ci*100+q, strings.Repeat("p", 300))
+					zw.Close()
+					req = rt.Req{Method: "POST", Path: "/echo19/", HasCT: true, CT: "application/json", Hdr: map[string]string{"Content-Encoding": "gzip"}, Body: zb.Bytes(), BodyLen: zb.Len(), Slow: true, Class: "gzip-echo"}
+				}
 			case 7:
 				if neg1 != neg {
 					// several registered types inside one Accept value, some behind malformed q-values
